@@ -1733,6 +1733,39 @@ def absorb_thin_wrappers(modules, known_funcs, log):
                 log.append(f"{n} call(s) of {mi.name}.{F.name} written as calls of the known wrapper {wname}")
 
 
+def recover_nested_renames(modules, known_funcs, log):
+    """closures: a known nested function `outer.inner` that is gone while `outer` has exactly one nested function (at that
+    level) that no known name accounts for is that function renamed; names are put back (definition and uses inside outer),
+    outermost level first so that deeper levels are looked up under the restored names"""
+    def nested_defs(fn):
+        return [x for x in fn.body if isinstance(x, (ast.FunctionDef, ast.AsyncFunctionDef))]
+
+    for mi in modules.values():
+        tops = {st.name: st for st in mi.tree.body if isinstance(st, (ast.FunctionDef, ast.AsyncFunctionDef))}
+        for st in mi.tree.body:
+            if isinstance(st, ast.ClassDef):
+                for c in st.body:
+                    if isinstance(c, (ast.FunctionDef, ast.AsyncFunctionDef)):
+                        tops[f"{st.name}.{_fname(c)}"] = c
+        work = [(f"{mi.name}.{n}", fn) for n, fn in tops.items()]
+        while work:
+            q, fn = work.pop(0)
+            kids = nested_defs(fn)
+            want = sorted({k[len(q) + 1 :].split(".")[0] for k in known_funcs if k.startswith(q + ".") and ".<" not in k})
+            have = {k.name for k in kids}
+            missing = [w for w in want if w not in have]
+            extra = [k for k in kids if k.name not in want]
+            if len(missing) == 1 and len(extra) == 1:
+                old, newn = extra[0].name, missing[0]
+                extra[0].name = newn
+                for y in ast.walk(fn):
+                    if isinstance(y, ast.Name) and y.id == old:
+                        y.id = newn
+                log.append(f"rename {q}.{old} -> {q}.{newn} (only unknown closure of {q})")
+            for k in nested_defs(fn):
+                work.append((f"{q}.{k.name}", k))
+
+
 def recover_moved_methods(modules, known_funcs, log):
     """A known method Cls.m that is gone, while its module now has an unknown module-level function m with the method's
     parameters minus `self` (the method never used self and was moved out of the class): the function is put back as
@@ -2056,8 +2089,10 @@ def inline_context_managers(modules, known_funcs, log):
     """`with cm(args) [as v]: BODY` for a @contextmanager generator introduced by a refactoring (module-level function or
     method called on self, one yield, optionally inside one try) is written out: the code before the yield, BODY in the place
     of the yield (inside the generator's try / except / finally if it has one), the code after it."""
+    shared = {}  # module-level context managers, usable from modules that import them by name
+    own = {}
     for mi in modules.values():
-        cms = {}
+        cms = own.setdefault(mi.name, {})
         for holder, cls in [(mi.tree, None)] + [(c, c) for c in mi.tree.body if isinstance(c, ast.ClassDef)]:
             for fn in [x for x in holder.body if isinstance(x, ast.FunctionDef)]:
                 q = f"{mi.name}.{cls.name + '.' if cls else ''}{fn.name}"
@@ -2079,6 +2114,12 @@ def inline_context_managers(modules, known_funcs, log):
                 if where is None or any(isinstance(n, ast.Return) and n.value is not None for n in ast.walk(fn)):
                     continue
                 cms[(cls.name if cls else None, fn.name)] = (fn, body, where, ys[0])
+                if cls is None:
+                    shared[(None, fn.name)] = (fn, body, where, ys[0])
+    for mi in modules.values():
+        imported = {a.asname or a.name for st in mi.tree.body if isinstance(st, ast.ImportFrom) for a in st.names}
+        cms = dict(own.get(mi.name, {}))
+        cms.update({k_: v_ for k_, v_ in shared.items() if k_[1] in imported})
         if not cms:
             continue
 
@@ -2109,7 +2150,11 @@ def inline_context_managers(modules, known_funcs, log):
                 mapping[k.arg] = k.value
             for pn, dv in zip(reversed(params), reversed(fn.args.defaults)):
                 mapping.setdefault(pn, dv)
-            if set(mapping) != set(params) or not all(isinstance(v, (ast.Name, ast.Constant, ast.Attribute)) for v in mapping.values()):
+            uses_ = {}
+            for x_ in ast.walk(fn):
+                if isinstance(x_, ast.Name) and x_.id in params:
+                    uses_[x_.id] = uses_.get(x_.id, 0) + 1
+            if set(mapping) != set(params) or not all(isinstance(v, (ast.Name, ast.Constant, ast.Attribute)) or uses_.get(k_, 0) <= 1 for k_, v in mapping.items()):
                 return None
             stored = {n.id for n in ast.walk(fn) if isinstance(n, ast.Name) and isinstance(n.ctx, ast.Store)}
             if stored & set(params):
@@ -2130,12 +2175,23 @@ def inline_context_managers(modules, known_funcs, log):
                 t = clone(body[i])
                 t.body = t.body[:j] + inner + t.body[j + 1 :]
                 out = pre + [t] + post
+            # what comes from the generator sits at the `with` line (before / after the block's own lines keep theirs):
+            # statements before the yield at the with line, statements after it at the last line of the block
+            last = max([getattr(z, "end_lineno", None) or getattr(z, "lineno", w.lineno) for b_ in w.body for z in ast.walk(b_) if hasattr(z, "lineno")] + [w.lineno])
+            own_ids = {id(z) for b_ in w.body for z in ast.walk(b_)}
+            seen_body = False
             for x in out:
-                ast.copy_location(x, w)
+                if id(x) in own_ids:
+                    seen_body = True
+                    continue
+                at = last if seen_body else w.lineno
                 for z in ast.walk(x):
-                    if not hasattr(z, "lineno"):
-                        ast.copy_location(z, w)
-                ast.fix_missing_locations(x)
+                    if id(z) in own_ids:
+                        continue
+                    if hasattr(z, "lineno") or isinstance(z, (ast.stmt, ast.expr)):
+                        z.lineno, z.col_offset, z.end_lineno, z.end_col_offset = at, 0, at, 0
+                if isinstance(x, ast.Try):
+                    seen_body = True
             log.append(f"context manager {key[1]} written out {mi.name}:{w.lineno}")
             return out
 
@@ -2164,10 +2220,10 @@ def inline_context_managers(modules, known_funcs, log):
                 for m in st.body:
                     if isinstance(m, ast.FunctionDef) and (st.name, m.name) not in cms:
                         m.body = rec(m.body, st.name)
-        # drop the generators that are no longer referenced
-        names = {x.id for x in ast.walk(mi.tree) if isinstance(x, ast.Name)} | {x.attr for x in ast.walk(mi.tree) if isinstance(x, ast.Attribute)}
+        # drop the generators that are no longer referenced (anywhere)
+        names = {x.id for m_ in modules.values() for x in ast.walk(m_.tree) if isinstance(x, ast.Name)} | {x.attr for x in ast.walk(mi.tree) if isinstance(x, ast.Attribute)}
         for (cn, fnname), (fn, *_r) in cms.items():
-            if fnname in names:
+            if fnname in names or not any(fn is y for y in ast.walk(mi.tree)):
                 continue
             if cn is None:
                 mi.tree.body = [x for x in mi.tree.body if x is not fn]
@@ -2384,6 +2440,7 @@ def run(modules, known_funcs):
     dissolve_method_objects(modules, known_funcs, log)
     absorb_thin_wrappers(modules, known_funcs, log)
     recover_renames(modules, known_funcs, log)
+    recover_nested_renames(modules, known_funcs, log)
     drop_local_annotations(modules, log)
     expand_descriptors(modules, log)
     recover_moved_methods(modules, known_funcs, log)
